@@ -33,6 +33,15 @@ Qed.
 Lemma ecef_eps_lower : / 100000000000 <= ecef_eps ROps.
 Proof. unfold ecef_eps, ecef_epsilon_m, ecef_epsilon_e. eval_dec. lra. Qed.
 
+(* PI * 0.0104^6 <= 1e-11 *)
+Lemma pi_q6_bound : PI * (104 / 10000) ^ 6 <= / 100000000000.
+Proof.
+  pose proof PI_4 as P4. pose proof PI_RGT_0 as P0.
+  assert (X6 : 0 <= (104 / 10000) ^ 6 <= / 400000000000) by (cbn [pow]; lra).
+  set (x := (104 / 10000) ^ 6) in *. clearbody x.
+  apply Rle_trans with (4 * x); [apply Rmult_le_compat_r; lra|lra].
+Qed.
+
 Section OnEllipsoid.
 Variable el : ellipsoid (T:=R).
 Hypothesis Ha : 0 < el_a el.
@@ -258,7 +267,7 @@ Proof.
   pose proof ecef_eps_lower as E.
   set (q := lat_q el ZP rhoP) in *. clearbody q.
   assert (Q1 : q <= 104 / 10000) by lra.
-  apply Rle_trans with (PI * (104 / 10000) ^ 6); [|apply Rle_trans with (/ 100000000000); [interval|exact E]].
+  apply Rle_trans with (PI * (104 / 10000) ^ 6); [|apply Rle_trans with (/ 100000000000); [exact pi_q6_bound|exact E]].
   apply Rmult_le_compat_l; [pose proof PI_RGT_0; lra|]. apply pow_incr. lra.
 Qed.
 
